@@ -82,7 +82,7 @@ def run_real(bits, ns, px):
         return _arr(int(args[0]), ns)
     g = {{'cc': cc, 'tt': tt, 'aa': aa, 'vv': vv}}
     try:
-        r = ('ok', execute_script(MODEL, {{'globals': g, 'maxStatements': 600}}))
+        r = ('ok', execute_script(MODEL, {{'globals': g, 'maxStatements': 300}}))
     except BareScriptRuntimeError as e:
         r = ('err', 'out' if 'oracle exhausted' in str(e) else str(e))
     with untraced():       # harness-side bookkeeping over concrete key strings only; values are not inspected
@@ -320,7 +320,7 @@ def plan(tier, seed, workdir, prop='C01'):
     p.bounds = [f'oracle draws <= {maxbits} (a run that needs more ends both sides with "oracle exhausted", compared too)',
                 'array lengths 0..2', ('depth 1 exhaustively + 96 seeded depth-2 shapes of 320 (alternating scope)' if tier == 'quick' else 'depth <= 2 exhaustively, both scopes')
                 + ('; 1600 seeded depth-3 shapes' if tier == 'thorough' else ''),
-                'value family: conditions draw from a 19-element pool of all nine value types', 'maxStatements 600 backstop (legitimate runs within the oracle bound need < 200 statements)']
+                'value family: conditions draw from a 19-element pool of all nine value types', 'maxStatements 300 backstop (legitimate runs within the oracle bound need < 200 statements)']
     p.stubs = ['ValueArgsError message formatting', 'host functions cc/tt/aa/vv']
     p.outside = ['depth > 3; depth 3 only sampled (thorough)', 'programs using jump/label directly (C08)', 'expression semantics (C03)']
     p.assumptions = ['the big-step reference vf/gen/skel.py:Ref is the structured reading', 'CrossHair/z3',
